@@ -15,14 +15,8 @@ TABLE = [
  ("regress/C11/dead-connection-registered-4fdf982.json", "4fdf982"),
  ("regress/C05/dead-connection-registered-4fdf982.json", "4fdf982"),
  ("regress/C10/cancel-in-init-phase-7f3aedc.json", "7f3aedc"),
- ("regress/C10/own-dial-in-flight-during-cancel.json", "1816325"),
- ("regress/C11/setup-after-end-3436f10.json", "3436f10"),
- ("regress/C18/cancel-on-completed-connection.json", "7123785"),
  ("regress/C18/direct-notification-overtakes-delayed.json", "0ae2d62"),
- ("regress/C01/hello-ok-after-unregister-511ee29.json", "511ee29"),
- ("regress/C01/connection-arrives-during-cancel.json", "eeb727a"),
  ("regress/C05/stale-attempt-after-graceful-close-7248753.json", "7248753"),
- ("regress/C05/register-misses-incoming-connection-37f73f2.json", "37f73f2"),
  ("regress/C04/closed-during-handler-511ee29.json", "511ee29"),
  ("regress/C04/closed-during-handler-shipid-511ee29.json", "511ee29"),
 ]
